@@ -8,16 +8,16 @@ HERE = os.path.dirname(os.path.abspath(__file__))
 
 CHECKS = {
     "C01": dict(engine="exec", cat="exploration", tech="runtime differential monitoring: native JIT code vs emulator over generated programs and inputs",
-                text="differential execution of generated programs (exhaustive over single-opcode forms, sampled pairs/random programs) on all three executable x86 targets against the emulator; held means no destination byte or accumulator differed on the executions listed in the evidence",
+                text="differential execution of generated programs (exhaustive over single-opcode forms, sampled pairs/random programs, special loads with parameter and constant operands, four-accumulator and many-array programs, 2-D incl. m = 0, poisoned executors) on all three executable x86 targets against the emulator; held means no destination byte or accumulator differed on the executions listed in the evidence",
                 note="trusts the host CPU and the harness (generator, arena, comparison); emulator correctness itself is C02"),
     "C02": dict(engine="emu+exec", cat="exploration", tech="runtime monitoring of the emulator against an independent executable reference over exhaustive/boundary operand sweeps",
                 text="every opcode emulated on exhaustive 8/16-bit operand values (thorough: all 16-bit pairs), boundary-crossed 32/64-bit values, all chunk positions and prefixes, compared with an independently written reference; multi-instruction programs against a whole-program interpreter; float/double opcodes (single forms, pairs, random programs on structured operands) emulated vs the reference in the default floating-point environment",
                 note="trusts harness/ref.c as the reading of the opcode reference (deviations from the doc table's pseudo-code are listed in DESIGN.md)"),
     "C03": dict(engine="exec", cat="exploration", tech="guard-page and canary monitoring of real executions (PROT_NONE pages flush against every array, read-only sources)",
-                text="every array flush against an inaccessible page on either side, rows separated by unmapped pages or canaried gaps, sources read-only; native and emulated executions observed for faults and canary damage",
+                text="every array flush against an inaccessible page on either side, rows separated by unmapped pages or canaried gaps, sources read-only; native and emulated executions observed for faults and canary damage; a CPU-time watchdog turns a native call that does not return into a bounded hang report",
                 note="reads inside the mapped data pages but outside entitled elements are visible only at array ends; entitled ranges computed by the harness"),
     "C10": dict(engine="exec", cat="exploration", tech="state-seeding assembly trampoline monitoring callee-saved registers, rsp, stack canaries, MXCSR, DF, x87 tags around every JIT call",
-                text="all native executions of generated programs (incl. many-array programs forcing callee-saved registers) run through a trampoline that seeds and compares machine state",
+                text="all native executions of generated programs (incl. many-array programs forcing callee-saved registers and four-accumulator programs) run through a trampoline that seeds and compares machine state; the executor lies flush against a guard page at its natural alignment so that a write behind it faults",
                 note="System V AMD64 only; memory writes outside arrays/executor observed via canaries and guard pages around arrays and executor"),
     "C18": dict(engine="exec", cat="exploration", tech="runtime differential monitoring of float opcodes: native vs emulator vs independent IEEE reference on structured operand sets",
                 text="bit-exact three-way comparison (native sse/avx, emulation, reference) of all float/double opcodes on structured operands, with the tolerances the statement grants (NaN class, min/max of equal operands); NaN propagation of single-instruction arithmetic programs checked lane by lane; plus the gcc-compiled generated C (backup, Orc-free) and the JIT wrapper of every float single-opcode form on wide finite operands",
@@ -32,7 +32,7 @@ CHECKS = {
                 text="every single-opcode form (~2000) and random int/float/mixed programs go through orcc; the emitted C is compiled with gcc and run as executor-based backup (ORC_CODE=backup) and as Orc-free DISABLE_ORC build; destination bytes with canary margins, accumulators and sources are compared with the reference interpreter; generate-emulation output is token-compared with the checked-in emulator",
                 note="finite float operands only (C18 grants bit-exactness for those); gcc -O2 only; the reference interpreter is tied to emulation by C02"),
     "C06": dict(engine="fault", cat="fault_enumeration", tech="fault injection at the libc boundary (--wrap=mkstemp,ftruncate,mmap) enumerated by call index, ORC_CODE modes and program kinds; results compared with emulation; fd growth and ASan monitors",
-                text="every single failure position (and pairs; thorough: all pairs) of the mkstemp/ftruncate/mmap calls liborc makes, and the permanent failure modes, crossed with ORC_CODE settings, backup registration, code-only executors, four program kinds (incl. a recompile history) and two-dimensional programs, each in its own process; plus runs that keep 1500 programs alive so that code memory must grow while the OS refuses; hangs confirmed by a second longer run",
+                text="every single failure position (and pairs; thorough: all pairs) of the mkstemp/ftruncate/mmap calls liborc makes, and the permanent failure modes, crossed with ORC_CODE settings, backup registration, code-only executors, five program kinds (incl. vector- and general-register exhaustion and a recompile history) and two-dimensional programs, each in its own process; plus runs that keep 1500 programs alive so that code memory must grow while the OS refuses; hangs confirmed by a second longer run",
                 note="only the calls code memory uses are failed; malloc failure is not injected"),
     "C07": dict(engine="orccgen+orccdrv+memfn", cat="exploration", tech="end-to-end runtime monitoring of orcc output: generated .orc -> real orcc in 11 option sets -> gcc -> functions called through their prototypes in JIT/backup/emulate/DISABLE_ORC modes and from concurrent threads under TSan, compared with a reference interpreter",
                 text="every eighth batch of the ~2000 single-opcode forms plus random functions (thorough: all) x 11 orcc configurations x 4 build/run modes called through the generated C prototype with all parameter classes, strides, accumulators, n, m; concurrent first calls under ThreadSanitizer; orcc --test output compiled and run; orc_memcpy/orc_memset against memcpy/memset for all small lengths and alignments; repository .orc corpus compiled in every configuration",
@@ -41,28 +41,28 @@ CHECKS = {
                 text="many fresh processes per scenario (concurrent orc_init, concurrent compiles on different programs, shared compiled function, take_code/free against compiles, once-guarded first calls) under TSan with randomised delays at the yield hook; report blocks counted and deduplicated, results compared with emulation",
                 note="TSan sees only the interleavings the runs produced; distinct orderings observed are reported in the evidence"),
     "C05": dict(engine="api", cat="exploration", tech="ASan/UBSan-instrumented execution of the compiler on generated valid, invalid and over-limit programs for all targets, with a result-classification monitor and a watchdog",
-                text="about 500k (quick) compiles of valid, mutated and over-limit programs for all eight registered targets and several flag sets under address/UB sanitizers; after every compile the harness checks the three-way result contract and emulates non-fatal programs; includes every opcode with x2/x4 prefix on operands of exactly the multiplied sizes (also beyond 8 bytes)",
+                text="about 500k (quick) compiles of valid, mutated and over-limit programs for all eight registered targets and several flag sets under address/UB sanitizers; after every compile the harness checks the three-way result contract and emulates non-fatal programs (also mutated ones the compiler accepted); includes every opcode with x2/x4 prefix on operands of exactly the multiplied sizes (also beyond 8 bytes)",
                 note="sanitizers see only heap/stack/global red-zone and array-subscript violations; bounded time is restated as a 240 s per-case watchdog"),
     "C13": dict(engine="api", cat="exploration", tech="runtime round-trip monitoring (encode, decode, field comparison, re-encode, differential emulation)",
-                text="about 180k (quick) generated programs incl. boundary encodings are serialised and reconstructed; all public fields, the second encoding and emulation results are compared; run with release and ASan builds",
+                text="about 180k (quick) generated programs incl. boundary encodings and arbitrary declared alignments are serialised and reconstructed; all public fields, the second encoding and emulation results are compared; run with release and ASan builds",
                 note="names are not part of the format; constants compared on their declared width"),
     "C14": dict(engine="api", cat="exploration", tech="sanitizer-instrumented fuzzing of the parser: structured generation with mutations and directed faults (gcc ASan/UBSan) plus coverage-guided libFuzzer (clang), both with an error-record oracle",
                 text="300k (quick) / 3M (thorough) texts of nine kinds parsed under ASan/UBSan; error line numbers, reporting of injected faults at their line, compile and free of every returned program are checked",
                 note="C-string inputs only; libFuzzer phase bounded by executions (640k quick, 6.4M thorough)"),
     "C15": dict(engine="api", cat="exploration", tech="runtime equivalence monitoring: independent printer -> parser vs construction API (structure, bytecode)",
-                text="each generated program is rendered four ways (formatting noise, CRLF, literal spellings, constants as in-place literal operands) and every parse must be error free and equal to the API-built program",
+                text="each generated program is rendered four ways (formatting noise, CRLF, literal spellings, constants as in-place literal operands, 8-byte literals with and without the L suffix) and every parse must be error free and equal to the API-built program",
                 note="printer covers integer/hex literal spellings; programs writing a destination twice are outside the text format"),
     "C16": dict(engine="api", cat="exploration", tech="ASan + LeakSanitizer over random legal lifecycle sequences driven by an ownership model, with heap-growth measurement",
                 text="80k random legal lifecycle sequences (one program in six is 12-40 instructions long) under ASan, repeated under LeakSanitizer in three environments, plus a K/4K iteration heap growth comparison",
                 note="legality model is the harness'; only leaks reachable at exit or growth visible in mallinfo2 are seen"),
     "C17": dict(engine="api", cat="exploration", tech="runtime comparison of repeated compilations across histories, code placements, reset and processes/debug levels",
-                text="every program compiled twice with different code-memory history and placement, after reset, and in fresh processes under three debug levels; bytes, listing and result compared for all eight targets; repeat runs of the same code on the same inputs through an executor before and after it was used for a larger n",
-                note="names fixed by the harness; run repeatability is observed under C01"),
+                text="every program compiled twice with different code-memory history and placement, after reset, and in fresh processes under three debug levels (and twice under ORC_CODE=debug); bytes, listing and result compared for all eight targets; repeat runs of the same code on the same inputs through an executor before and after it was used for a larger n and with every caller-saved vector register filled with different patterns at entry (incl. four-accumulator programs)",
+                note="names fixed by the harness; ORC_CODE=debug changes default flags by design and is compared only with itself"),
     "C20": dict(engine="api", cat="exploration", tech="runtime monitoring of extension registration scenarios (call counters, rule identity log, before/after snapshots) in fresh processes",
-                text="32 (quick) / 96 (thorough) registration scenarios x 2 builds, each in its own process: extension opcode sets (incl. set names extending 'sys' or an earlier set) emulated and natively compiled against their own reference, rule sets with satisfied/unsatisfied/mixed required flags, rule precedence logged, built-in programs compared before/after",
+                text="32 (quick) / 96 (thorough) registration scenarios x 2 builds, each in its own process: extension opcode sets (incl. set names extending 'sys' or an earlier set) emulated and natively compiled against their own reference, rule sets with satisfied/unsatisfied/mixed required flags, rule precedence logged, opcodes with three sources or two destinations, built-in programs compared before/after",
                 note="rules registered for sse only"),
     "C09": dict(engine="codemem", cat="exploration", tech="runtime invariant monitoring of the code-memory allocator through a walk hook under its own lock, against a shadow model; exhaustive alloc/free sequences plus random real histories",
-                text="all alloc/free sequences to depth 6 (thorough: 7) over six sizes, and long random compile/take_code/free/re-execute histories, with structural, overlap, reuse and byte/result-stability invariants checked after every step",
+                text="all alloc/free sequences to depth 6 (thorough: 7) over six sizes, and long random compile/take_code/free/recompile-in-place/re-execute histories, with structural, overlap, reuse and byte/result-stability invariants checked after every step",
                 note="exhaustive only for the stated alphabet and depth; needs the ORC_VERIF_HOOKS walk hook"),
     "C19": dict(engine="cpu", cat="exploration", tech="runtime monitoring of target selection in child processes whose cpuid/XCR0 reads are masked by a hook, plus ISA oracle and execution of the default compile path",
                 text="hundreds (thorough: thousands) of simulated feature subsets x override settings, each in a fresh process: default target, executable flags, default flags, named requests and the code returned by the default compile path are checked",
